@@ -26,6 +26,9 @@ class Boom(RuntimeError):
 
 def _rec(self, name, phase, args):
     TRACE.append((name, phase, tuple(args), self.paused, self.status))
+    hook = ENV.get('step_hook')
+    if hook is not None:
+        hook(self, name, phase)
 
 
 def _make_step(name: str, st: dict):
